@@ -129,6 +129,13 @@ func PKI() map[string]*Identity {
 		pki["tsa-root"] = tsaCA
 		pki["tsa"] = MakeCert("tsa", newKey("rsa"), tsaCA, Epoch, farFuture, false, []x509.ExtKeyUsage{x509.ExtKeyUsageTimeStamping})
 		pki["tsa-noeku"] = MakeCert("tsa-noeku", newKey("ec"), tsaCA, Epoch, farFuture, false, cs)
+		// a code-signing CA with short-lived leaves: valid when the virtual
+		// clock starts (2000-01-01), expired a month later
+		codeRoot := MakeCert("code-root", newKey("ec"), nil, Epoch, farFuture, true, nil)
+		pki["code-root"] = codeRoot
+		shortFrom, shortTo := time.Date(1999, 12, 31, 0, 0, 0, 0, time.UTC), time.Date(2000, 1, 31, 0, 0, 0, 0, time.UTC)
+		pki["short-rsa"] = MakeCert("short-rsa", newKey("rsa"), codeRoot, shortFrom, shortTo, false, cs)
+		pki["short-ec"] = MakeCert("short-ec", newKey("ec"), codeRoot, shortFrom, shortTo, false, cs)
 		// TLS server
 		pki["server"] = MakeCert("relic.sim", newKey("ec"), nil, Epoch, farFuture, false, []x509.ExtKeyUsage{x509.ExtKeyUsageServerAuth},
 			"relic.sim", "dir.sim", "s0.sim", "s1.sim", "s2.sim", "s3.sim")
